@@ -36,9 +36,35 @@ CHECKS = {
             "black-box CLI monitor over an enumerated configuration x failure-stage matrix"),
 }
 
+G_NOTE = ("Only generated programs are judged (vf/gen.py, DESIGN §2 grammar); rustc, yaserde, reqwest, tokio at the locked versions are the "
+          "trusted runtime; features listed as quarantined in known_findings.json are kept out of ordinary programs.")
+CHECKS.update({
+    "C01": ("exploration", "G",
+            "Every generated schema set is pushed through the real generator and the emitted file is compiled by rustc (edition 2024, metadata only) with --extern limited to the six documented crates; any rustc or syn error in emitted code is a violation.",
+            G_NOTE, "compile monitor over generated programs (rustc as oracle)"),
+    "C02": ("exploration", "G",
+            "The emitted struct set and member lists (parsed with syn) are compared with an independent reference mapping of the schema model, and a typed probe (one struct literal per type, each member forced to its expected type) is compiled: rustc decides type identity member by member.",
+            G_NOTE, "reference-mapping oracle + rustc typed probe over generated programs"),
+    "C03": ("exploration", "G",
+            "Sampled values of every generated root type are serialized by the compiled emitted code at run time; the XML is parsed namespace-aware (expat) and compared as an infoset with the independently rendered expectation; deviations shared by independently written reference structs are excluded as yaserde limits (classes listed in evidence).",
+            G_NOTE, "runtime wire monitor: infoset comparison against an independent renderer"),
+    "C04": ("exploration", "G",
+            "Schema-valid instance documents in 5 independent prefix/namespace styles are deserialized by the compiled emitted code; Debug equality with the constructed value, infoset equality of the re-serialization and the ser-de-ser fixpoint are checked at run time, with the reference-struct exclusion rule the property states.",
+            G_NOTE, "runtime round-trip monitor with differential exclusion (reference structs)"),
+    "C05": ("exploration", "G",
+            "For generated WSDLs the client is discovered from the emitted text, request envelopes are serialized and compared with the independently built SOAP 1.1 envelope infoset, and every operation is called against a loopback listener at the WSDL's address; the returned value must equal the expected response value.",
+            G_NOTE, "runtime monitor at the wire and listener boundary over generated clients"),
+    "C16": ("fault_enumeration", "G",
+            "Every operation of generated clients runs the complete scripted-server table (status x body x transport fault x credentials, plus 32 concurrent calls); the listener's request log and the caller's Result are judged against the expected-outcome table.",
+            G_NOTE, "scripted fault injection at the HTTP boundary with request-log and result monitors"),
+    "C18": ("exploration", "G",
+            "The driver asserts Send for every method future and free function future and Send+Sync for every envelope type (rustc E0277 on those lines is the verdict) and runs every call through tokio::spawn on a multi-thread runtime.",
+            G_NOTE, "compile-time trait assertions + runtime spawn on generated clients"),
+})
+
 PENDING = {
     p: "check under construction in this round (engine G not yet built); see DESIGN.md §9 construction order"
-    for p in ["C01", "C02", "C03", "C04", "C05", "C07", "C08", "C09", "C10", "C14", "C16", "C18"]
+    for p in ["C07", "C08", "C09", "C10", "C14"]
 }
 
 
